@@ -443,7 +443,7 @@ pub fn run(ctx: &Ctx) -> PropResult {
     let mut meta = PropMeta::default();
     meta.exhaustive = full;
     meta.rule = format!(
-        "{}days: {} ; each day n is reached through Date::from_timestamp, read with as_ymd/timestamp, rebuilt with from_ymd and compared with an independent i64 calendar model plus a direct successor check across chunk seams. triples: {} years x month 0..=13 x day 0..=32 (year grid thinned {}x away from the range ends / era boundary) + random triples over the whole i32 year domain, judged accept/refuse/error-kind against the model. Non-trivial = a day that is the first/last of its month or Feb 29; a triple that is invalid, out of range, or has day 1 or >= 28. Distinctness by hash of the concrete input (days_all: each day visited once, counted). Call sequences: a triple followed by neighbours differing in one or two components (adjacent year, month 0/13/±1/±12, same day), and a day followed by days one year / one 4-, 100-, 400-year cycle / 2^j days away and then the first day again (what a last-year / last-month memo would confuse).",
+        "{}days: {} ; each day n is reached through Date::from_timestamp, read with as_ymd/timestamp, rebuilt with from_ymd and compared with an independent i64 calendar model plus a direct successor check across chunk seams. triples: {} years x month 0..=13 x day 0..=32 (year grid thinned {}x away from the range ends / era boundary) + random triples over the whole i32 year domain, judged accept/refuse/error-kind against the model. Non-trivial = a day that is the first/last of its month or Feb 29; a triple that is invalid, out of range, or has day 1 or >= 28. Distinctness by hash of the concrete input (days_all: each day visited once, counted). Call sequences: a triple followed by neighbours differing in one or two components (adjacent year, month 0/13/±1/±12, same day), and a day followed by days one year / one 4-, 100-, 400-year cycle / 2^j days away and then the first day again (what a last-year / last-month memo would confuse). Day window 1500–2500 AD swept day by day (calendar-reform dates included).",
         if full { "triples: ALL 5.4e9 (year −5879612..=5879612) x (month 0..=13) x (day 0..=32) through Date::from_ymd (exhaustive over the property's quantifier). " } else { "" },
         if full { "ALL 2^32 day numbers".to_string() } else { "3 Gregorian cycles either side of day 0, 1600-2400 AD, 2 cycles at each range end, and a strided pass over the whole range".to_string() },
         nyears,
